@@ -5,7 +5,7 @@ from common import hx
 from hexlib import HexaryTrie, keccak, Boom, BOOMS, boom, WriteFailed, FailingDict
 
 ID = "C04"
-LEAN_IMPORTS = ["PyTrie.Props.C04", "PyTrie.Props.C04History", "PyTrie.Props.RawLevel", "PyTrie.Props.NonVacuity", "PyTrie.Props.FreeExec", "PyTrie.Props.NonVacuity8"]
+LEAN_IMPORTS = ["PyTrie.Props.C04", "PyTrie.Props.C04History", "PyTrie.Props.RawLevel", "PyTrie.Props.NonVacuity", "PyTrie.Props.FreeExec", "PyTrie.Props.NonVacuity8", "PyTrie.Props.C04Shared", "PyTrie.Props.NonVacuity10"]
 THEOREMS = [
     "PyTrie.Props.C04.set_writes_addressed",
     "PyTrie.Props.C04.delete_writes_addressed",
@@ -31,6 +31,16 @@ THEOREMS = [
     "PyTrie.Props.Raw.history_is_world_run",
     "PyTrie.Props.Free.op_is_executor_op",
     "PyTrie.Props.Free.np_complete_after_commit",
+    "PyTrie.Props.C04.sinv_empty",
+    "PyTrie.Props.C04.shared_step",
+    "PyTrie.Props.C04.shared_history",
+    "PyTrie.Props.C04.shared_history_reads",
+    "PyTrie.Props.C04.shared_root_recorded",
+    "PyTrie.Props.NonVacuity10.evs_good",
+    "PyTrie.Props.NonVacuity10.wEnd_shape",
+    "PyTrie.Props.NonVacuity10.shared_witness",
+    "PyTrie.Props.NonVacuity10.reads_witness",
+    "PyTrie.Props.NonVacuity10.reads_evaluated",
 ]
 RULE = ("interleaved histories of several non-pruning tries over ONE shared database: set/delete on any trie, fresh tries "
         "opened at earlier roots, at_root snapshot reads, squash_changes blocks (normal exit, exception after n operations, n-th "
